@@ -186,6 +186,26 @@ bool run(const Case &c, std::string &msg) {
     if (a.is_open) input = a.make_input(message, e, side_in);
     size_t inlen = input.size(), outlen = a.outlen(inlen);
     char b[300];
+    if (c.tamper && a.any_offset) {
+        // an opening call that must fail, with output and input overlapping at any offset: same verdict as with disjoint buffers; if the
+        // disjoint call wipes its output (sign_open) the overlapped one must leave the same bytes; otherwise no decrypted plaintext may appear
+        if (!a.is_open || inlen == 0) return true;
+        Bytes bad = input, side_bad = side_in;
+        if (!side_bad.empty() && (c.cseed & 1)) side_bad[(c.cseed >> 8) % side_bad.size()] ^= (uint8_t) (1u << ((c.cseed >> 3) % 8)); else bad[(c.cseed >> 8) % bad.size()] ^= (uint8_t) (1u << ((c.cseed >> 3) % 8));
+        Bytes sd = side_bad, o1; int r1; { XBuf in(bad, 3), out(outlen, 9, 0xcc); r1 = a.call(out.p, in.p, inlen, e, sd); o1 = out.get(); }
+        size_t ia = c.off < 0 ? (size_t)(-c.off) : 0, oa = c.off > 0 ? (size_t) c.off : 0, total = std::max(ia + inlen, oa + outlen);
+        XBuf u(total, 5, 0xee); memcpy(u.p + ia, D(bad), inlen);
+        Bytes sd2 = side_bad; int r2 = a.call(u.p + oa, u.p + ia, inlen, e, sd2);
+        if (r1 == 0 || r2 == 0) { snprintf(b, sizeof b, "%s accepted an altered input (disjoint rc %d, overlap offset %d rc %d, len %zu)", a.name, r1, c.off, r2, c.mlen); msg = b; return false; }
+        bool wiped = false; for (auto x : o1) if (x != 0xcc) wiped = true;
+        Bytes o2(u.p + oa, u.p + oa + outlen);
+        if (wiped && o2 != o1) { size_t i = 0; while (i < o1.size() && o1[i] == o2[i]) i++; snprintf(b, sizeof b, "%s rejected an altered input: with disjoint buffers the output is wiped, with overlap offset %d byte %zu of %zu still holds other data (%02x)", a.name, c.off, i, outlen, o2[i]); msg = b; return false; }
+        if (!wiped && message.size() >= 24 && std::string(a.name).find("sign") == std::string::npos) {
+            Bytes all(u.p, u.p + total);
+            for (size_t i = 0; i + 16 <= message.size(); i += 8) if (std::search(all.begin(), all.end(), message.begin() + (long) i, message.begin() + (long) i + 16) != all.end()) { snprintf(b, sizeof b, "%s rejected an altered input (overlap offset %d) but 16 bytes of the decrypted plaintext (at %zu) are in the shared buffer", a.name, c.off, i); msg = b; return false; }
+        }
+        return true;
+    }
     if (c.tamper) {
         // a failing decryption in place: same verdict as with disjoint buffers, and no plaintext left where the ciphertext was
         if (!a.is_open || std::string(a.name).find("_decrypt") == std::string::npos || inlen == 0) return true;
@@ -275,6 +295,30 @@ void explore(Ctx &ctx, bool any_offset_group) {
                     size_t ao = (size_t) (off < 0 ? -off : off);
                     exec_case(ctx, c, run, mix64(mix64(ai, len), mix64((uint64_t)(off + 100), m)), len > ao || (off == 0 && len >= 16));
                 }
+            }
+            // "every overlap offset": distances beyond +-80, around one and two vector strides of the cipher cores (256 / 512 bytes) and the
+            // batch sizes in between, with lengths that still make the buffers overlap
+            static const int FAR[] = { 81, 96, 127, 128, 129, 191, 192, 193, 255, 256, 257, 300, 319, 320, 321, 383, 384, 385, 447, 448, 449, 500, 511, 512, 513, 575, 576, 577, 640, 700 };
+            for (int fo : FAR) for (int sg = -1; sg <= 1; sg += 2) {
+                size_t nl = ctx.thorough() ? 12 : (slow ? 2 : 4);
+                for (size_t li = 0; li < nl; li++) {
+                    uint64_t cs = r.next();
+                    if (!ctx.mine(idx++)) continue;
+                    Rng rr(cs);
+                    size_t len = (size_t) fo + 1 + (size_t) (li == 0 ? rr.below(64) : li == 1 ? 64 + rr.below(600) : rr.below((uint64_t) (1500 - fo)));
+                    Case c{ (int) ai, len, sg * fo, masks[rr.below(masks.size())], cs };
+                    exec_case(ctx, c, run, mix64(mix64(ai, len), mix64((uint64_t)(sg * fo + 1000), c.mask)), true);
+                }
+            }
+            // opening calls that must fail, with overlapping buffers
+            if (A[ai].is_open) for (int off = -80; off <= 80; off += (ctx.thorough() ? 1 : 3)) for (size_t li = 0; li < 3; li++) {
+                uint64_t cs = r.next();
+                if (!ctx.mine(idx++)) continue;
+                Rng rr(cs);
+                size_t ao = (size_t) (off < 0 ? -off : off);
+                size_t len = li == 0 ? ao + 1 + (size_t) rr.below(40) : li == 1 ? 24 + (size_t) rr.below(200) : 200 + (size_t) rr.below(900);
+                Case ct{ (int) ai, len, off, masks[rr.below(masks.size())], cs }; ct.tamper = true;
+                exec_case(ctx, ct, run, mix64(mix64(ai, len), mix64((uint64_t)(off + 100), 0x7a4)), true);
             }
         }
     }
